@@ -95,6 +95,9 @@ type Config struct {
 	// DefaultMarshal: RemoteConfig.Marshal / Unmarshal are left nil (the library's own defaults; no marshal
 	// call counting or fault injection in such a configuration)
 	DefaultMarshal bool
+	// StartHeight: the history starts from an empty root that records this height (a tree taller than its size
+	// gives, as older releases left them after deletes): top nodes without entries of their own
+	StartHeight uint8
 	// AltKeyMarshal: struct keys (SKey) are marshaled by the configured marshaler in a form of its own
 	// ("%08d|%s" of B and A) instead of JSON: with KeyCompare left nil, order and layer of such keys are
 	// defined by *that* form
